@@ -107,7 +107,32 @@ var Interleave func()
 
 var inInterleave int32
 
+// SetGoroutineInterleave installs (f != nil) or removes (nil) an Interleave hook that applies to lock acquisitions of the
+// CALLING goroutine only, so that several harness goroutines can each enumerate their own lock-boundary schedules.
+func SetGoroutineInterleave(f func()) {
+	if f == nil {
+		gHooks.Delete(goid())
+		return
+	}
+	gHooks.Store(goid(), &gHook{f: f})
+}
+
+type gHook struct {
+	f  func()
+	in bool
+}
+
+var gHooks sync.Map
+
 func maybeInterleave() {
+	if h, ok := gHooks.Load(goid()); ok {
+		if gh := h.(*gHook); !gh.in {
+			gh.in = true
+			defer func() { gh.in = false }()
+			gh.f()
+		}
+		return
+	}
 	if f := Interleave; f != nil && atomic.CompareAndSwapInt32(&inInterleave, 0, 1) {
 		f()
 		atomic.StoreInt32(&inInterleave, 0)
